@@ -141,7 +141,7 @@ def run_history_c46(ch, tr: Trace) -> None:
         q = ch.shuffle(q)
         try:
             got = arr.get([np.array(k) for k in q])
-        except ValueError:
+        except (ValueError, IndexError, KeyError):  # the statement asks for "an error"; ValueError is the documented one
             tr.fault("rejected-call", "get_absent")
             tr.probe("absent_read_rejected")
             tr.op("get_absent", "rejected", [list(k) for k in q], changing=False)
